@@ -156,7 +156,7 @@ pub struct Ctx<'a> {
     bytes: RefCell<HashMap<usize, Arc<Vec<u8>>>>,
     pub dest_n: Cell<usize>,
     /// (device, inode) of the directory `cache` named when the context was made
-    pub cache_id: Option<(u64, u64)>,
+    pub cache_id: Cell<Option<(u64, u64)>>,
 }
 
 pub const PREEXISTING: &[u8] = b"PRE-EXISTING DESTINATION CONTENT\n";
@@ -176,13 +176,18 @@ impl<'a> Ctx<'a> {
         // outside the cache directory; how a call empties a plainly named directory is its business)
         let through_link = std::fs::canonicalize(&cache).map(|c| c != crate::sup::normalise(&cache)).unwrap_or(false);
         let cache_id = std::fs::metadata(&cache).ok().filter(|m| m.is_dir() && through_link).map(|m| (m.dev(), m.ino()));
-        Ctx { cache, scratch, keys, blobs, bytes: RefCell::new(HashMap::new()), dest_n: Cell::new(0), cache_id }
+        Ctx { cache, scratch, keys, blobs, bytes: RefCell::new(HashMap::new()), dest_n: Cell::new(0), cache_id: Cell::new(cache_id) }
     }
     /// The path given as the cache still names the directory it named at the start (a call
     /// may empty that directory, it may not replace it — or the link leading to it — by another).
+    /// The harness itself re-pointed the link the cache path leads through.
+    pub fn refresh_cache_id(&self) {
+        use std::os::unix::fs::MetadataExt;
+        self.cache_id.set(std::fs::metadata(&self.cache).ok().filter(|m| m.is_dir()).map(|m| (m.dev(), m.ino())));
+    }
     pub fn cache_is_same_dir(&self) -> Result<(), String> {
         use std::os::unix::fs::MetadataExt;
-        if let Some(id) = self.cache_id {
+        if let Some(id) = self.cache_id.get() {
             match std::fs::metadata(&self.cache) {
                 Ok(m) if (m.dev(), m.ino()) == id => {}
                 Ok(m) => return Err(format!("the cache path {} (which leads through a symbolic link) no longer names the directory it named before (inode {} -> {}): something outside the cache directory was replaced", self.cache.display(), id.1, m.ino())),
@@ -257,6 +262,16 @@ pub fn declared_size(d: Declare, len: usize) -> Option<usize> {
     }
 }
 
+pub fn weaker_algo(a: Algo) -> Option<Algo> {
+    match a {
+        Algo::Sha512 => Some(Algo::Sha256),
+        Algo::Sha384 => Some(Algo::Sha1),
+        Algo::Sha256 => Some(Algo::Sha1),
+        Algo::Sha1 => Some(Algo::Xxh3),
+        Algo::Xxh3 => None,
+    }
+}
+
 fn other_algo(a: Algo) -> Algo {
     match a {
         Algo::Sha256 => Algo::Sha512,
@@ -295,14 +310,22 @@ pub fn declared_integrity_ex(d: IntegDecl, algo: Algo, data: &[u8], other: &[u8]
         }
         IntegDecl::MultiAllWrong => Some(format!("{} {}", wrong(1), wrong(2))),
         IntegDecl::DigestOfOtherBlob => Some(blob::sri(algo, other)),
-        IntegDecl::MultiWeakerOfOther => {
-            let weaker = match algo {
-                Algo::Sha512 => Some(Algo::Sha256),
-                Algo::Sha384 => Some(Algo::Sha1),
-                Algo::Sha256 => Some(Algo::Sha1),
-                Algo::Sha1 => Some(Algo::Xxh3),
-                Algo::Xxh3 => None,
+        IntegDecl::NoHashes => Some(String::new()),
+        IntegDecl::MultiStrongerOfOther => {
+            let stronger = match algo {
+                Algo::Sha512 => None,
+                Algo::Sha384 => Some(Algo::Sha512),
+                Algo::Sha256 => Some(Algo::Sha512),
+                Algo::Sha1 => Some(Algo::Sha256),
+                Algo::Xxh3 => Some(Algo::Sha1),
             };
+            match stronger {
+                Some(w) => Some(format!("{} {}", blob::sri(algo, data), blob::sri(w, other))),
+                None => Some(blob::sri(algo, data)),
+            }
+        }
+        IntegDecl::MultiWeakerOfOther => {
+            let weaker = weaker_algo(algo);
             match weaker {
                 Some(w) => Some(format!("{} {}", blob::sri(w, other), blob::sri(algo, data))),
                 None => Some(blob::sri(algo, data)),
@@ -359,6 +382,14 @@ pub fn cut_chunks<'d>(data: &'d [u8], chunks: &[usize]) -> Vec<&'d [u8]> {
         out.push(&data[off..]);
     }
     out
+}
+
+/// The address of `addr` plus the hash of blob `also` under a weaker algorithm.
+pub fn two_hash(ctx: &Ctx, addr: AddrRef, also: usize) -> cacache::Integrity {
+    match weaker_algo(addr.algo) {
+        Some(w) => format!("{} {}", blob::sri(w, &ctx.blob(also)), ctx.sri_of(addr)).parse().unwrap(),
+        None => ctx.integrity_of(addr),
+    }
 }
 
 /// `RemoveOpts` with the flag set once or — for odd key indices — twice (the last call wins).
@@ -1159,9 +1190,10 @@ fn do_sync(ctx: &Ctx, op: &Op) -> Out {
         },
         Op::IdxDelete { key } => unit(cacache::index::delete(cache, ctx.key(*key))),
         Op::LinkTo(l) => do_link_sync(ctx, l),
+        Op::RemoveHashMulti { addr, also } => unit(cacache::remove_hash_sync(cache, &two_hash(ctx, *addr, *also))),
         Op::Abandon { spec, at } => do_abandon_sync(ctx, spec, *at),
         Op::TwoWriters { a, b, plan } => do_two_sync(ctx, a, b, *plan),
-        Op::DamageContent { .. } | Op::DamageBucket { .. } | Op::ForeignRecord { .. } | Op::Chdir { .. } | Op::PlantRecord { .. } | Op::TmpElsewhere | Op::RemoveTarget { .. } => unreachable!(),
+        Op::DamageContent { .. } | Op::DamageBucket { .. } | Op::ForeignRecord { .. } | Op::Chdir { .. } | Op::PlantRecord { .. } | Op::TmpElsewhere | Op::RemoveTarget { .. } | Op::SwitchCache => unreachable!(),
     }
 }
 
@@ -1266,9 +1298,10 @@ async fn do_async(ctx: &Ctx<'_>, op: &Op) -> Out {
         }
         Op::IdxDelete { key } => unit(cacache::index::delete_async(cache, ctx.key(*key)).await),
         Op::LinkTo(l) => do_link_async(ctx, l).await,
+        Op::RemoveHashMulti { addr, also } => unit(cacache::remove_hash(cache, &two_hash(ctx, *addr, *also)).await),
         Op::Abandon { spec, at } => do_abandon_async(ctx, spec, *at).await,
         Op::TwoWriters { a, b, plan } => do_two_async(ctx, a, b, *plan).await,
-        Op::DamageContent { .. } | Op::DamageBucket { .. } | Op::ForeignRecord { .. } | Op::Chdir { .. } | Op::PlantRecord { .. } | Op::TmpElsewhere | Op::RemoveTarget { .. } => unreachable!(),
+        Op::DamageContent { .. } | Op::DamageBucket { .. } | Op::ForeignRecord { .. } | Op::Chdir { .. } | Op::PlantRecord { .. } | Op::TmpElsewhere | Op::RemoveTarget { .. } | Op::SwitchCache => unreachable!(),
     }
 }
 
@@ -1449,6 +1482,21 @@ pub fn do_harness_side(ctx: &Ctx, op: &Op) -> Out {
         Op::RemoveTarget { target } => {
             let _ = std::fs::remove_file(ctx.target_path(*target));
             Out::Done
+        }
+        Op::SwitchCache => {
+            // only when the cache path itself is a symbolic link
+            let is_link = std::fs::symlink_metadata(&ctx.cache).map(|m| m.file_type().is_symlink()).unwrap_or(false);
+            if !is_link {
+                return Out::Bool(false);
+            }
+            let n = ctx.dest_n.get();
+            ctx.dest_n.set(n + 1);
+            let fresh = ctx.scratch.join(format!("switched-cache-{n}"));
+            let _ = std::fs::create_dir_all(&fresh);
+            let _ = std::fs::remove_file(&ctx.cache);
+            let _ = std::os::unix::fs::symlink(&fresh, &ctx.cache);
+            ctx.refresh_cache_id();
+            Out::Bool(true)
         }
         Op::TmpElsewhere => {
             let tmp = ctx.cache.join("tmp");
